@@ -2,3 +2,7 @@ import MirModel.Basic
 import MirModel.Scores
 import MirModel.Matching
 import MirModel.HitMetric
+import MirModel.Chord.Grammar
+import MirModel.Chord.Split
+import MirModel.Chord.Encode
+import MirModel.Multipitch
